@@ -28,12 +28,12 @@ claim("C02", "MIR effect analysis + edge dominance + taint",
       "Static effect analysis over type-checked MIR: every mutation of cursor state, persisted index, entry counts, reclamation trackers, deletion channel or files that is reachable "
       "from read_next / batch_read_for_topic must be edge-dominated by checkpoint==true (and start_offset==None); the offset-addressed arm is read-only by type; the returned value is "
       "non-interfering with `checkpoint` (locals-only taint). Holds for every input and schedule because it is a property of all CFG paths; it does not decide the value-level clause about "
-      "offset-addressed reads returning only appended bytes.", design="4/C02")
+      "offset-addressed reads returning only appended bytes. Also: the tail carry-over at sealing is keyed on the cursor's tail block being the sealed block (nothing a peek can reach).", design="4/C02")
 claim("C03", "MIR must-pass-through on CFG + def-use + only-allowed-bypass",
       "Cap and budget clauses are decided for every input: pushes into the returned vector are cut off from entry and from each other when the cap/budget pass edges are removed "
       "(must-pass-through on the MIR CFG), the constant is evaluated, and the running total's definitions are enumerated. Of the progress clause only a structural part is decided: with nothing planned yet, the planned range is widened to the "
       "size announced by the header at the cursor, and the branches that may bypass the widening are enumerated (C03.3); a budget stop ends the batch (C03.4: no push reachable from the stop edge, "
-      "boolean flags taken at their value); the planner arithmetic over runtime sizes is not decided.", design="4/C03, 10.1")
+      "boolean flags taken at their value); the planner arithmetic over runtime sizes is not decided. Also: the batch read fails (Err) only on a failed completion or a checksum mismatch, never on an entry cut by the budget; the room test that may skip the first-entry widening is strict.", design="4/C03, 10.1")
 claim("C14", "abstract interpretation over char partition + who-may-push",
       "Decides the property for all key strings at the level of path components: exact image of the sanitizer closure over a finite partition of char, fallback-discipline obligations, "
       "and a who-may-push rule over every PathBuf::push/Path::join in the crate: pushes live in the path manager only and the operand is the sanitizer's result through views and "
@@ -50,7 +50,7 @@ claim("C04", "MIR path rules over Ok/Err edges (NOEXIT, must-not-reach), error d
       "Decides for all inputs and failure points the shape conditions of 'failed appends leave no trace': no exit between sealing a block and installing its successor, rejections precede "
       "every effect, publish stores are unreachable from failed writes/flushes and nothing can fail after a publish, error exits after the first effect pass rollback+unlock (infeasible exits tabled), "
       "every rollback after a write/submit is preceded by the zeroing of every planned header (loop rule), rollback restores the block, storage write results are not discarded, both encoders have the header-length guard, the batch flag guard is built right after the CAS. "
-      "Known findings are listed by key in known_findings.json.", design="4/C04")
+      "Known findings are listed by key in known_findings.json. Also: the single-entry reader accepts every entry the batch writer placed (comparison inventory of Block::read).", design="4/C04")
 claim("C12", "MIR who-may-call tables + finite evaluation of the readiness predicate + control dependence",
       "Decides who may delete files and request deletions, the exact readiness predicate of flush_check (evaluated over its sub-CFG on a finite abstract domain), the dominance conditions "
       "of every consumed-mark site (a block is marked only when a position the consumer has really reached - the cursor's own offset, or in a consuming read_next that offset plus the entry "
@@ -74,11 +74,11 @@ claim("C09", "MIR only-allowed-bypass between commit and persist + reaching stor
       "checkpoint=false or a poisoned lock, and every WalIndex method used to record the position persists on all of its paths; the (index, offset) pair that is packaged for the "
       "index equals the cursor at that point (reaching-stores analysis); a provisional tail position is never persisted behind the reader's in-memory progress (constant 0 only under "
       "tail_block_id != active block); a persisted position is mapped back to a chain index by a search by block id, never by place; should_persist's strict arm is evaluated; the batch commit closure's persist flag/target obligations; write-fsync-rename order of the index. "
-      "Tail ids versus recovery's synthetic ids and the AtLeastOnce redelivery bound are not decided.", design="4/C09")
+      "Tail ids versus recovery's synthetic ids and the AtLeastOnce redelivery bound are not decided. Also: the recovery entry scan stays inside one unit and the allocator reserves exact round-ups, so that a persisted (block id, offset) means the same entries after a restart.", design="4/C09")
 claim("C10", "MIR ordering / must-pass-through of sync calls on acknowledgement paths",
       "'Sync before acknowledging' decided on every path: SyncEach arm of the single append, flush loops of both batch paths, seal-after-flush, the call-graph link from "
       "SharedMmap::flush to the kernel sync of each backend, the creation protocol of new WAL files and tmp-fsync-rename-dirfsync of the two small stores. Replay of arbitrary "
-      "subsets of unsynced writes is not decided.", design="4/C10")
+      "subsets of unsynced writes is not decided. Also: the handle flushed is the one of the block written after any rotation, and allocations are exact round-ups (recovery re-derives the block ids the durable positions use).", design="4/C10")
 claim("C17", "MIR call-graph must-reach with only-allowed-bypass + state-machine obligations",
       "Decides that a clean shutdown (Drop of Walrus) synchronously reaches the marker store's fsync+rename on all paths with a snapshot of all topic states, that appends mark dirty "
       "before anything can fail, that the marker state machine stores/loads the same atomic, that every update handed to the store is merged into the map that is written (loop rule), "
